@@ -17,7 +17,7 @@ meta = {
  "origin": "written by an independent sub-agent that saw only the property text and its own scratch worktree (nothing from /verif)",
  "needs_to_manifest": (notes.split('\n\n')[1][:600] if '\n\n' in notes else notes[:600]),
  "confirmed_by_me": {"how": "scratch worktree of /repo HEAD (round 3: tools/verify_seed.sh): demo.py on the clean tree, patch applied, demo.py again, full pinned pytest command with the patch applied, patch removed",
-                     "result": ver[-1] if ver else "see DESIGN.md"},
+                     "result": " | ".join(ver[-2:]) if ver else "see DESIGN.md"},
  "checks_run": "quick check of the property run against the patched scratch worktree (VERIF_REPO; tools/verify_seed.sh, tools/try_seed_wt.sh, tools/reseed_all.sh); rounds 1-2 applied the patch to /repo and reverted it (tools/try_seed.sh)",
  "caught_by_quick_checks": [c for c in caught.split(',') if c],
  "missed_before_strengthening": [c for c in missed.split(',') if c],
